@@ -108,6 +108,15 @@ def make_pool(seed, n, scratch):
             f.write(t)
     jobs.append({"k": "compile", "text": t1, "path": os.path.join(root, "p1/main.exps"), "lookup": [], "cls": "shared-lib-1", "keep": True})
     jobs.append({"k": "compile", "text": t2, "path": os.path.join(root, "p2/deep/main.exps"), "lookup": [], "cls": "shared-lib-2", "keep": True, "after": t1})
+    # a script with several hundred routines, like the game's unionall (tables and caches have sizes)
+    nr = rnd.choice([520, 600, 700])
+    big = "".join(f"coro C{i} {{\n    if ($A == {i}) {{\n        a{i}();\n    }} else {{\n        b();\n    }}\n    end;\n}}\n" for i in range(nr))
+    try:
+        cb = norm.compile_exps(big)
+        jobs.append({"k": "decompile_exps", "spec": json.loads(json.dumps(norm.spec_of(cb.routine_infos, cb.routine_ops, cb.named_coroutines))),
+                     "cls": "many-routines", "keep": True})
+    except Exception:
+        pass
     # deeply nested programs: whether they compile depends on the interpreter's recursion limit, which must not depend on history
     for depth in [rnd.choice([40, 90]), rnd.choice([150, 220])]:
         body = "a();"
